@@ -87,12 +87,14 @@ class FakeTimer:
 class Driver:
     """One gateway life (or several sharing a persistence file) under observation."""
 
-    def __init__(self, version, flavour, interner, persistence_file=None, raising_cb=False, mqtt=False, no_callback=False):
+    def __init__(self, version, flavour, interner, persistence_file=None, raising_cb=False, mqtt=False, no_callback=False, spelling=None):
         import mysensors
         import mysensors.handler
         import mysensors.task
         self.my = mysensors
         self.version = version
+        # the configured string may be any spelling whose numeric floor is `version` (C18): the behaviour must not differ
+        self.spelling = spelling or version
         self.flavour = flavour
         self.I = interner
         self.pfile = persistence_file
@@ -153,7 +155,7 @@ class Driver:
     def _new_gateway(self):
         my = self.my
         self.tr = RecTransport()
-        kw = {"protocol_version": self.version}
+        kw = {"protocol_version": self.spelling}
         if not self.no_callback:
             kw["event_callback"] = self._callback
         if self.pfile:
@@ -545,13 +547,13 @@ class Driver:
 
     def trace(self, meta=None):
         return {"cfg": {"ver": self.version, "flavour": self.flavour, "raising_cb": self.raising_cb,
-                        "persist": bool(self.pfile), "mqtt": self.mqtt, "no_callback": self.no_callback, **(meta or {})}, "ev": self.events, "ops": self.ops}
+                        "persist": bool(self.pfile), "mqtt": self.mqtt, "no_callback": self.no_callback, "spelling": self.spelling, **(meta or {})}, "ev": self.events, "ops": self.ops}
 
 
 def replay_ops(cfg, ops, persistence_file=None):
     """Re-execute a recorded history against the current tree; returns the new trace."""
     drv = Driver(cfg["ver"], cfg["flavour"], Interner(), persistence_file=persistence_file,
-                 raising_cb=cfg.get("raising_cb", False), mqtt=cfg.get("mqtt", False), no_callback=cfg.get("no_callback", False))
+                 raising_cb=cfg.get("raising_cb", False), mqtt=cfg.get("mqtt", False), no_callback=cfg.get("no_callback", False), spelling=cfg.get("spelling"))
     for op in ops:
         k = op[0]
         if k == "recv":
